@@ -1,7 +1,7 @@
 """C08 - see properties.jsonl; DESIGN.md section 5."""
 from ._generic import run_property
 
-EXPLANATION = 'Bounded stand-in: partition value plumbing round trip per type and write/read contract on hive/drill datasets (row placement, multiset equality, value kinds).'
+EXPLANATION = 'Mixed. P: writer.partition_on_columns (one arbitrary group, hive and drill), util.join_path / path_string, val_to_num / val_from_meta round trips per value kind, paths_to_cats / _path_to_cats (one arbitrary path and level under invariants), the partition block of core.read_row_group (one arbitrary row group and column), partition_meta plumbing, get_file_scheme - texts as uninterpreted functions with stated algebraic facts; refuted obligations are known findings; analyse_paths is out of reach; str / groupby / parser semantics are assumed contracts. B (labelled bounded): partition value plumbing round trip per type and write/read contract on hive/drill datasets (row placement, multiset equality, value kinds).'
 
 
 def p_parts():
@@ -10,7 +10,7 @@ def p_parts():
 
 
 def run(ctx):
-    return run_property(ctx, 'exploration', EXPLANATION, p_parts=p_parts(), b_modules=['c08_partitions'],
+    return run_property(ctx, 'other', EXPLANATION, p_parts=p_parts(), b_modules=['c08_partitions'],
                         assumptions=["pandas / numpy / cramjam behaviour inside every opaque value",
                                      "the oracle (plain pandas / the spec library under /verif/spec) is a faithful reading of the property"],
                         trusted=["bounded layer: enumerated inputs only; nothing outside the stated bound is covered"])
